@@ -7,6 +7,15 @@ Part B: schedules of the follower read path (begin / flight.Do / leader answer /
 backend read, interleaved with leader commits) replayed on the real revision syncer, brain server and
 backends through gates.
 
+Part C: a follower forwarding write transactions through the REAL etcd proxy to a REAL leader (loopback gRPC) whose
+answers can be lost after execution (`fwd … lose=1`): executed at most once per client request, a lost answer is
+reported as Unavailable, a definite answer is truthful.
+Part B starts with the two PINNED schedules of the findings this property has had: `joined-fetch-stale` (still
+in the code: must reproduce, printed as KNOWN-FINDING) and `late-set-lowers-revision` (repaired in /repo by
+db7d4ff, tso.Commit only raises the committed revision: the schedule must now be served FRESH and the delayed
+store must not lower the read revision — otherwise VIOLATION with that schedule as replay, before anything
+else is run).
+
 The oracle judges the IMPLEMENTATION transcript; the model transcript is only compared afterwards."""
 import os
 import random
@@ -33,6 +42,30 @@ REQUIRED = ["etcd/Range", "etcd/Txn", "etcd/Watch/List", "etcd/Watch/Watch", "et
             "brain/RangeStream", "brain/Watch"]
 
 
+# the schedule of the known finding (known_findings.json, status=known): replayed on every run
+PINNED_KNOWN = {
+    "joined-fetch-stale": [("begin", 0), ("enter", 0), ("answer", "ok"), ("commit", None), ("begin", 1), ("enter", 1),
+                           ("reply", None), ("set", 0), ("set", 1), ("serve", 1)],
+}
+# the schedule of the REPAIRED finding (known_findings.json, "fixed": db7d4ff): replayed on every run, must be fresh
+PINNED_REPAIRED = {
+    "late-set-lowers-revision": [("begin", 0), ("enter", 0), ("answer", "ok"), ("reply", None), ("commit", None),
+                                 ("begin", 1), ("enter", 1), ("answer", "ok"), ("reply", None), ("set", 1), ("set", 0),
+                                 ("serve", 1)],
+}
+# Large start revisions (one per harness process): TiKV PD timestamps (~4.4e17, float64 spacing 64) and the in-memory
+# engine's UnixNano (~1.7e18, spacing 256) are far above 2^53; the first two are rounded DOWN by a float64 round trip,
+# the third UP.  The model computes in Nat, so any lossy transport of the revision between the leader's /status answer
+# and the follower's SetCurrentRevision shows as a stale / overtaking read and as a transcript difference.
+BIG_BASES = [441234567890123479, 1758800000000000103, 441234567890123497]
+
+# what the real code must answer on the repaired schedule (leader and follower start at INIT)
+REPAIRED_EXPECT = {
+    "late-set-lowers-revision": ["set r1 %d frev=%d" % (INIT + 1, INIT + 1), "set r0 %d frev=%d" % (INIT, INIT + 1),
+                                 "serve r1 rev=%d n=1" % (INIT + 1)],
+}
+
+
 # ---------------------------------------------------------------- part A: the role table
 
 def table_cases(handlers):
@@ -56,7 +89,8 @@ def table_cases(handlers):
         for proxy in (0, 1):
             for lb in ("ok", "down", "err"):
                 lines.append("req etcd Watch/Watch role=%s proxy=%d leader=%s shape=nonpure" % (role, proxy, lb))
-    cases.append(core.Case(SUITE, lines, {"part": "table", "handler": "etcd/Watch/Watch", "oracle_only": True}))
+    cases.append(core.Case(SUITE, lines, {"part": "table", "handler": "etcd/Watch/Watch", "oracle_only": True},
+                           compare=lambda op: op != "req"))
     return cases
 
 
@@ -218,8 +252,8 @@ def random_schedule(r, nreads, ncommits, modes):
         sched.append((op, a))
 
 
-def sched_lines(sched, init=INIT):
-    lines = ["cfg init=%d base=%d" % (init, INIT)]
+def sched_lines(sched, init=INIT, base=INIT):
+    lines = ["cfg init=%d base=%d" % (init, base)]
     for op, a in sched:
         if op in ("begin", "enter", "set", "serve"):
             lines.append("%s r%d" % (op, a))
@@ -232,47 +266,74 @@ def sched_lines(sched, init=INIT):
     return lines
 
 
-def sched_case(scheds):
+def sched_case(scheds, base=INIT):
+    """`base`: the revision both nodes start at (one per harness process: its leader backend lives as long as the
+    process).  Large bases (TiKV PD timestamps ~4.4e17, memkv UnixNano ~1.7e18) exercise the transport of the
+    revision from the leader's /status answer into the follower's SetCurrentRevision bit by bit."""
     lines = []
-    init = INIT
+    init = base
     for s in scheds:
         # the harness process keeps one leader backend: the next schedule starts where this one's commits end
-        lines += sched_lines(s, init)
+        lines += sched_lines(s, init, base)
         init += sum(1 for op, _ in s if op == "commit")
         # every read reports how it ended
         n = sum(1 for op, _ in s if op == "begin")
         served = {a for op, a in s if op == "serve"}
         lines += ["serve r%d" % i for i in range(n) if i not in served]
-    return core.Case(SUITE, lines, {"part": "follower", "schedules": len(scheds)})
+    return core.Case(SUITE, lines, {"part": "follower", "schedules": len(scheds), "base": base})
 
 
 def sched_oracle(case):
-    """-> list of (description, signature) hits, one per stale read."""
-    hits = []
+    """-> list of (description, signature) hits on the implementation transcript: one per stale read first, then
+    the other laws of the read path: the revision a read adopts is the one the leader answered to its fetch (bit
+    by bit), SetCurrentRevision never lowers the follower's read revision (/repo db7d4ff), a read is not served
+    above the leader's committed revision, a read whose fetch failed fails."""
+    hits, other = [], []
+    frev = leader = None
     begin, own, failed_fetch, cur, base = {}, {}, set(), None, INIT
-    flight_readers = set()
-    bad_mode = False
+    flight_readers, late, delivered = set(), set(), {}
+    bad_mode = answered = False
     for i, (line, out) in enumerate(zip(case.lines, case.impl)):
         t, o = line.split(), out.split()
+        where = "line %d (schedule starting at line %d): %s -> %s" % (i + 1, (cur or 0) + 1, line, out)
         if t[0] == "cfg":
-            begin, own, failed_fetch, flight_readers, bad_mode = {}, {}, set(), set(), False
+            begin, own, failed_fetch, flight_readers, late, delivered = {}, {}, set(), set(), set(), {}
+            bad_mode = answered = False
             cur = i
             base = int(opts_of(t[1:]).get("base", INIT))
+            frev = leader = int(opts_of(t[1:]).get("init", INIT))   # cfg: the follower starts at the leader's revision
+        elif t[0] == "commit" and len(o) == 2 and o[1].isdigit():
+            leader = int(o[1])
         elif t[0] == "begin" and len(o) == 3 and o[2].startswith("at="):
             begin[t[1]] = int(o[2][3:])
         elif t[0] == "enter" and len(o) == 3 and o[2] in ("start", "join"):
             flight_readers.add(t[1])
+            if o[2] == "join" and answered:
+                late.add(t[1])      # joined a fetch the leader had already answered
         elif t[0] == "answer":
             bad_mode = len(o) == 2 and o[1] in ("err", "down")
+            answered = True
         elif t[0] == "reply" and len(o) == 3:
             if bad_mode:
                 failed_fetch |= flight_readers
-            flight_readers, bad_mode = set(), False
+            elif o[1].isdigit() and o[2].startswith("reads="):
+                for r in o[2][6:].split(","):
+                    delivered[r] = int(o[1])
+            flight_readers, bad_mode, answered = set(), False, False
         elif t[0] == "set" and len(o) == 4 and o[2].isdigit():
-            own[t[1]] = int(o[2])
+            r = t[1]
+            own[r] = int(o[2])
+            if r in delivered and own[r] != delivered[r]:
+                other.append((where + ": the leader answered %d to this read's fetch but the follower adopted %d (off by %+d)"
+                              % (delivered[r], own[r], own[r] - delivered[r]), "adopted-revision-differs-from-leader-answer"))
+            if o[3].startswith("frev=") and o[3][5:].isdigit():
+                now = int(o[3][5:])
+                if frev is not None and (now < frev or now < own[r]):
+                    other.append((where + ": the follower's read revision was %d before this SetCurrentRevision(%d) and is %d "
+                                  "after it: the store is not monotone" % (frev, own[r], now), "read-revision-lowered"))
+                frev = now
         elif t[0] == "serve":
             r = t[1]
-            where = "line %d (schedule starting at line %d): %s -> %s" % (i + 1, (cur or 0) + 1, line, out)
             if r in failed_fetch:
                 if len(o) < 3 or not o[2].startswith("error") or "read=1" in o:
                     hits.append((where + ": the leader could not be reached for this read's fetch but the read did not fail",
@@ -281,15 +342,22 @@ def sched_oracle(case):
             if len(o) == 4 and o[2].startswith("rev=") and r in begin:
                 rev, n = int(o[2][4:]), int(o[3][2:])
                 if rev < begin[r]:
-                    if own.get(r, rev) < begin[r]:
+                    if r in late:
                         sig = "joined-fetch-stale"
                         why = "it joined a single-flight fetch the leader had answered (%d) before the read began" % own.get(r, rev)
-                    else:
+                    elif own.get(r, rev) >= begin[r]:
                         sig = "late-set-lowers-revision"
                         why = "it stored %d itself, a delayed SetCurrentRevision of an older fetch lowered the read revision" % own[r]
+                    else:
+                        sig = "own-fetch-stale"
+                        why = ("it ran its own fetch (the leader answered %s) and adopted %d, below the leader's committed "
+                               "revision when it began" % (delivered.get(r, "?"), own.get(r, rev)))
                     hits.append((where + ": read began when the leader had committed %d, was served at %d (%d of %d keys visible): %s"
                                  % (begin[r], rev, n, begin[r] - base, why), sig))
-    return hits
+                elif leader is not None and rev > leader:
+                    other.append((where + ": read served at %d, above the leader's committed revision %d" % (rev, leader),
+                                  "read-ahead-of-leader"))
+    return hits + other
 
 
 def split_schedules(case):
@@ -302,8 +370,63 @@ def split_schedules(case):
         cur.append(ln)
     if cur:
         res.append(cur)
-    # a schedule replayed on its own starts a fresh process: the leader is at INIT again
-    return [core.Case(SUITE, ["cfg init=%d base=%d" % (INIT, INIT)] + x[1:], case.meta).run() for x in res]
+    # a schedule replayed on its own starts a fresh process: the leader is at the base again
+    base = case.meta.get("base", INIT)
+    return [core.Case(SUITE, ["cfg init=%d base=%d" % (base, base)] + x[1:], case.meta).run() for x in res]
+
+
+# ---------------------------------------------------------------- part C: forwarded write transactions
+
+FWD_FIXED = [
+    "fwd create k=1", "fwd create k=1", "fwd update k=1", "fwd update k=1 stale=1", "fwd update k=2", "fwd update k=2 stale=1",
+    "fwd create k=2 lose=1", "fwd create k=2", "fwd create k=2 lose=1", "fwd update k=2 lose=1", "fwd update k=2",
+    "fwd update k=1 stale=1 lose=1", "fwd update k=3 lose=1", "fwd create k=3 lose=1", "fwd update k=3", "fwd update k=3 lose=1",
+]
+
+
+def fwd_cases(r, quick):
+    cases = [core.Case(SUITE, ["cfg init=%d" % INIT] + FWD_FIXED, {"part": "forward"})]
+    for _ in range(4 if quick else 40):
+        lines = ["cfg init=%d" % INIT]
+        for _ in range(40):
+            shape = r.choice(["create", "update", "update"])
+            ln = "fwd %s k=%d" % (shape, r.randint(1, 4))
+            if shape == "update" and r.random() < 0.25:
+                ln += " stale=1"
+            if r.random() < 0.4:
+                ln += " lose=1"
+            lines.append(ln)
+        cases.append(core.Case(SUITE, lines, {"part": "forward"}))
+    return cases
+
+
+def fwd_oracle(case):
+    """One client request = one line.  Judged on the implementation transcript only."""
+    for i, (line, out) in enumerate(zip(case.lines, case.impl)):
+        t, o = line.split(), out.split()
+        if t[0] != "fwd":
+            continue
+        where = "line %d: %s -> %s" % (i + 1, line, out)
+        f = opts_of(o[3:]) if len(o) == 6 else {}
+        if len(o) != 6 or o[0] != "fwd" or o[1] != t[1] or not f.get("exec", "").isdigit() or f.get("applied") not in ("0", "1"):
+            return (where + ": malformed answer", "malformed-answer")
+        ans, execs, applied, lose = o[2], int(f["exec"]), f["applied"] == "1", opts_of(t[2:]).get("lose") == "1"
+        if execs > 1:
+            return (where + ": the leader executed the forwarded transaction %d times for ONE client request%s"
+                    % (execs, " and the client was told its condition FAILED although its write took effect" if ans == "failed" and applied else ""),
+                    "forwarded-txn-executed-twice")
+        if f.get("local") != "-" and WRITE_M & set(f["local"].split(",")):
+            return (where + ": the follower applied the write to its own backend", "follower-backend-write")
+        if ans == "failed" and applied:
+            return (where + ": the client was told its condition failed but its write took effect", "forward-failed-but-applied")
+        if ans == "ok" and not applied:
+            return (where + ": the client was told its write succeeded but the key does not hold its value", "forward-ok-but-not-applied")
+        if lose and ans != "unavailable":
+            return (where + ": the leader's answer was lost (the forwarded call ended with Unavailable) but the client got a definite answer",
+                    "forward-lost-answer-definite")
+        if not lose and (ans not in ("ok", "failed") or execs != 1):
+            return (where + ": an undisturbed forwarded transaction was not answered by the leader's single execution", "forward-not-served")
+    return None
 
 
 # ---------------------------------------------------------------- the check
@@ -322,6 +445,48 @@ def check(rep, tier, seed):
         rep.violation(core.write_replay("C18", "handlers-missing", case=hc,
                                         text="# required handlers missing from the extracted table: %s" % missing), no_input=True)
         return
+
+    known_sigs = {f.get("signature") for f in core.load_known().get("findings", [])
+                  if f.get("property") == "C18" and f.get("status") == "known"}
+    witnesses = {}
+    # the pinned schedules, before anything else: a tree that lost the db7d4ff repair is reported at once
+    pinned = [(sig, True, sched_case([sc])) for sig, sc in sorted(PINNED_KNOWN.items())] + \
+             [(sig, False, sched_case([sc])) for sig, sc in sorted(PINNED_REPAIRED.items())]
+    for _, _, c in pinned:
+        c.meta["part"] = "pinned"
+    core.run_cases([c for _, _, c in pinned], workers=2)
+    for sig, known, c in pinned:
+        rep.count_case(c)
+        hits = sched_oracle(c)
+        if known:
+            if sig not in known_sigs:
+                raise RuntimeError("known_findings.json has no status=known entry for C18 %s" % sig)
+            mine = [h for h in hits if h[1] == sig]
+            if mine:
+                witnesses[sig] = c
+                core.handle_oracle_hit(rep, "C18", sig, c, mine[0][0], sig)      # -> KNOWN-FINDING
+                hits = [h for h in hits if h[1] != sig]
+            elif c.diff() is not None:
+                # the recorded defect does not reproduce any more: the model (and known_findings.json) are out of date
+                core.handle_diff(rep, "C18", "known-%s-not-reproduced" % sig, c)
+                return
+        if hits:
+            # late-set-lowers-revision / read-revision-lowered on the pinned schedule: the repair is gone
+            desc, hsig = hits[0]
+
+            def still(x, hsig=hsig):
+                return any(s_ == hsig for _, s_ in sched_oracle(x))
+            core.handle_oracle_hit(rep, "C18", hsig, c, desc, hsig, shrink_fn=still)
+            if rep.violations:
+                return
+        if not known:
+            missing_out = [x for x in REPAIRED_EXPECT[sig] if x not in (c.impl or [])]
+            if missing_out or c.diff() is not None:
+                rep.violation(core.write_replay("C18", "repaired-%s-not-fresh" % sig, case=c,
+                                                text="# oracle: the schedule of the repaired finding %s must be served fresh by the real "
+                                                     "syncer (expected transcript lines %s, missing %s)" % (sig, REPAIRED_EXPECT[sig], missing_out)))
+                return
+            witnesses["repaired-" + sig] = c
 
     tcases = table_cases(handlers)
     r = random.Random("c18/%d" % seed)
@@ -345,9 +510,29 @@ def check(rep, tier, seed):
             seen.add(k)
             uniq.append(s)
     scases = [sched_case(uniq[i:i + pack]) for i in range(0, len(uniq), pack)]
+    # the same read path at large revisions: a separate process per case (the base is process-wide)
+    big = list(PINNED_KNOWN.values()) + list(PINNED_REPAIRED.values()) + one_per_class(enum_schedules(1, 2)) + \
+        one_per_class(enum_schedules(1, 1, modes=("ok", "err", "down")))
+    nbig, bigcases = 0, []
+    for bi, b in enumerate(BIG_BASES):
+        rb = random.Random("c18/big/%d/%d" % (seed, bi))
+        mine = big + [random_schedule(rb, 2, rb.choice([1, 2]), ("ok", "ok", "ok", "err", "down")) for _ in range(15 if quick else 300)]
+        nbig += len(mine)
+        bigcases += [sched_case(mine[i:i + pack], base=b) for i in range(0, len(mine), pack)]
+    scases = bigcases + scases
     # every harness process of part B carries two real backends whose sequencer goroutine is a busy loop
     # (backend.collectStorageWriteEvents), and the syncer's HTTP client gives up after 1 s: do not oversubscribe
-    core.run_cases(tcases)
+    fcases = fwd_cases(random.Random("c18/fwd/%d" % seed), quick)
+    core.run_cases(tcases + fcases)
+    for c in fcases:
+        rep.count_case(c)
+        hit = fwd_oracle(c)
+        if hit:
+            def same(x, sig=hit[1], worst="took effect" in hit[0]):
+                h = fwd_oracle(x)      # keep the most telling form: a definite "failed" for a write that took effect
+                return h is not None and h[1] == sig and ("took effect" in h[0]) == worst
+            if core.handle_oracle_hit(rep, "C18", hit[1], c, hit[0], hit[1], shrink_fn=same):
+                return
     core.run_cases(scases, workers=max(2, (os.cpu_count() or 4) // 3))
 
     # pass 1: the oracles (property judged on the implementation transcripts); pass 2: model = implementation
@@ -360,11 +545,8 @@ def check(rep, tier, seed):
         if hit and core.handle_oracle_hit(rep, "C18", hit[1], c, hit[0], hit[1], shrink_fn=lambda x: table_oracle(x) is not None):
             violated = True
             break
-    stale = {"joined-fetch-stale": 0, "late-set-lowers-revision": 0}
+    stale = {"joined-fetch-stale": 0, "late-set-lowers-revision": 0, "read-revision-lowered": 0}
     served = 0
-    witnesses = {}
-    known_sigs = {f.get("signature") for f in core.load_known().get("findings", [])
-                  if f.get("property") == "C18" and f.get("status") == "known"}
     for c in scases:
         if violated:
             break
@@ -394,7 +576,7 @@ def check(rep, tier, seed):
                 break
     if violated:
         return
-    for c in tcases + scases:
+    for c in tcases + fcases + scases:
         if not c.meta.get("oracle_only") and c.diff() is not None and c.meta["part"] == "follower":
             # the only real-time element of the scenario is the syncer's 1 s HTTP timeout: a schedule that was
             # starved of CPU for that long ends in a sync error the model does not predict; run it once more, alone
@@ -408,7 +590,8 @@ def check(rep, tier, seed):
                 core.handle_oracle_hit(rep, "C18", sig, c, desc, sig)
                 return
         if not c.meta.get("oracle_only") and c.diff() is not None:
-            core.handle_diff(rep, "C18", "role-table-correspondence" if c.meta["part"] == "table" else "follower-correspondence", c)
+            core.handle_diff(rep, "C18", {"table": "role-table-correspondence", "forward": "forward-correspondence"}.get(
+                c.meta["part"], "follower-correspondence"), c)
             return
     # evidence: one script of every kind, and the replayed witnesses of the known findings
     samples = []
@@ -436,28 +619,40 @@ def check(rep, tier, seed):
                 hist[k] = hist.get(k, 0) + 1
     rep.cov["outcome_histogram"] = hist
     distinct_reqs = len({ln for c in tcases for ln in c.lines if ln.startswith("req ")})
-    rep.cov["evaluations"] = rows + len(uniq)
-    rep.cov["distinct_nontrivial"] = distinct_reqs + len(uniq)
-    rep.cov["processes"] = 1 + len(tcases) + len(scases)
+    rep.cov["evaluations"] = rows + len(uniq) + nbig + len(pinned)
+    rep.cov["distinct_nontrivial"] = distinct_reqs + len(uniq) + nbig
+    rep.cov["processes"] = 1 + len(pinned) + len(tcases) + len(fcases) + len(scases)
 
     rep.cov["exhaustive"] = True
     rep.cov["rule"] = ("part A: EXHAUSTIVE product of every handler in the regenerated guard table (list cross-checked with the "
                        "harness) x request shape x role x proxy x leader behaviour, one case per handler, all distinct; "
-                       "evaluations = requests of part A + schedules of part B (distinct_nontrivial: distinct request lines + distinct schedules); part B: all interleavings of 1 read + 2 leader commits and of 2 reads + 1 commit%s, plus seeded random "
-                       "interleavings of 2-3 reads with leader failures; a schedule is non-trivial if it is distinct (duplicates "
+                       "part C: a fixed script covering create / guarded update x key absent / present x guard right / stale x answer "
+                       "delivered / lost, plus seeded random scripts of 40 forwarded transactions over 4 keys (real etcd proxy, real leader "
+                       "over gRPC); evaluations = requests of part A + schedules of part B (distinct_nontrivial: distinct request lines + distinct schedules); part B: the pinned schedules of the known finding joined-fetch-stale (must reproduce) and of the repaired finding late-set-lowers-revision (must be fresh, read revision must not go back), then all interleavings of 1 read + 2 leader commits and of 2 reads + 1 commit%s, plus seeded random "
+                       "interleavings of 2-3 reads with leader failures; the pinned, the 1-read and seeded random 2-read schedules again "
+                       "with both nodes starting at each of three revisions above 2^53 (a TiKV-sized one that a float64 round trip "
+                       "rounds down, one that it rounds up, a UnixNano-sized one); a schedule is non-trivial if it is distinct (duplicates "
                        "are dropped before running); cases pack %d schedules"
                        % (" (quick tier: one representative per placement class of the commits — a commit interacts only with "
                           "begin and answer; the thorough tier runs every interleaving)" if quick
                           else " and of 2 reads + 2 commits", pack))
     rep.cov["role_table_rows"] = rows
+    fw = [out.split() for c in fcases for ln, out in zip(c.lines, c.impl) if ln.startswith("fwd ")]
+    rep.cov["forwarded_txns"] = {"requests": len(fw), "answers": {a: sum(1 for o in fw if o[2] == a) for a in sorted({o[2] for o in fw})},
+                                 "lost_answers": sum(1 for c in fcases for ln in c.lines if "lose=1" in ln),
+                                 "max_leader_executions_per_request": max([int(opts_of(o[3:])["exec"]) for o in fw] or [0])}
     rep.cov["handlers"] = len(handlers)
-    rep.cov["follower_schedules"] = len(uniq)
+    rep.cov["follower_schedules"] = len(uniq) + nbig + len(pinned)
+    rep.cov["follower_schedules_at_large_revisions"] = {"bases": BIG_BASES, "schedules": nbig}
     rep.cov["follower_reads_served"] = served
     rep.cov["stale_reads_observed"] = stale
+    rep.cov["pinned_schedules"] = {sig: ("known finding reproduced" if known else "repaired finding: served fresh") for sig, known, _ in pinned}
     rep.cov["explanation"] = ("exhaustive refers to part A (finite table) and to the enumerated interleavings of part B; the random "
                               "3-read schedules are a sample")
     rep.assumptions += [
-        "the etcd proxy (pkg/server/service/etcdproxy) is scripted: that it really reaches the leader is not checked here",
+        "part A scripts the etcd proxy (only THAT a handler forwards is observed there); part C runs the real etcdproxy.NewEtcdProxy "
+        "towards a real leader on a loopback gRPC listener; a lost answer is injected by the leader's unary interceptor (handler "
+        "runs, the call is answered codes.Unavailable 'transport is closing')",
         "the leader's /status answer is its committed revision at the moment its handler runs (server.revisionHandler); "
         "the httptest leader mirrors that handler over a real leader backend sharing the follower's store",
         "role changes in the middle of a request are not modelled (IsLeader is read once per guard)",
